@@ -255,6 +255,84 @@ func init() {
 	})
 }
 
+func init() {
+	register("replay-share", "direction A: replay TLC-generated ShareSeq.tla operation sequences on the real Share/ShareReplay", func(args []string) int {
+		fs := flag.NewFlagSet("replay-share", flag.ExitOnError)
+		in := fs.String("in", "", "TLC output file")
+		out := fs.String("out", "", "result JSON")
+		_ = fs.String("modes", "", "ignored")
+		_ = fs.Parse(args)
+		var mu sync.Mutex
+		var all []pipe.Mismatch
+		byClass := map[string]int{}
+		perKey := map[string]int{}
+		raw := map[int]json.RawMessage{}
+		var samples []json.RawMessage
+		nontrivial := 0
+		chains := map[string]bool{}
+		type job struct {
+			i int
+			c *pipe.ShCase
+		}
+		jobs := make(chan job, 256)
+		var wg sync.WaitGroup
+		for w := 0; w < 16; w++ {
+			wg.Add(1)
+			go func() {
+				defer wg.Done()
+				for j := range jobs {
+					var res []pipe.Mismatch
+					pipe.ReplayShare(j.i, j.c, &res)
+					nt := false
+					for _, op := range j.c.Ops {
+						for _, d := range op.Deliv {
+							if len(d) > 0 {
+								nt = true
+							}
+						}
+					}
+					mu.Lock()
+					for _, m := range res {
+						byClass[m.Class]++
+						key := m.Class + "@" + m.Chain + "@" + j.c.Ops[max(m.Step, 0)].Op
+						perKey[key]++
+						if perKey[key] <= 6 {
+							all = append(all, m)
+							if len(raw) < 2000 {
+								raw[m.Case] = json.RawMessage(j.c.Raw)
+							}
+						}
+					}
+					if nt {
+						nontrivial++
+					}
+					chains[j.c.Cfg.Kind] = true
+					if len(samples) < 3 && j.i%4999 == 0 {
+						samples = append(samples, json.RawMessage(j.c.Raw))
+					}
+					mu.Unlock()
+				}
+			}()
+		}
+		n, err := pipe.ReadShCases(*in, func(i int, c *pipe.ShCase) { jobs <- job{i, c} })
+		close(jobs)
+		wg.Wait()
+		if err != nil {
+			fmt.Fprintln(os.Stderr, err)
+			return 2
+		}
+		summary := map[string]any{"cases": n, "replays": n, "nontrivial": nontrivial, "chains": len(chains),
+			"mismatches": all, "by_class": byClass, "samples": samples, "raw": raw}
+		b, _ := json.Marshal(summary)
+		if err := os.WriteFile(*out, b, 0o644); err != nil {
+			fmt.Fprintln(os.Stderr, err)
+			return 2
+		}
+		fmt.Printf("{\"cases\": %d, \"mismatches\": %d}\n", n, len(all))
+		return 0
+	})
+}
+
 // syncable: the synchronous cold source can only play scripts without an Unsubscribe in the middle
 func syncable(c *pipe.Case) bool {
 	for i, st := range c.Steps {
